@@ -373,7 +373,7 @@ class UnitRunner:
             "status": status, "error": err, "paths": self.paths, "paths_after_requires": self.paths_after_requires,
             "outcomes": _count(outcomes), "obligations": list(self.obligations.values()),
             "assumptions": sorted(self.assumptions), "wall_s": time.time() - t0,
-            "inlined": sorted(inlined_all), "note": c["note"],
+            "inlined": sorted(inlined_all), "note": c["note"], "bound": c.get("bounded"),
         }
 
 
